@@ -33,9 +33,9 @@ var (
 	ErrSegmentExists = errors.New("segment already exists")
 
 	// ErrSegmentReplaced is returned when attempting to read from a segment
-	// that has been replaced due to log compaction. When this error is
-	// encountered, operations should be retried in order to run against the
-	// new segment.
+	// that has been replaced due to log compaction or deleted due to log
+	// retention. When this error is encountered, operations should be retried
+	// in order to run against the new segment.
 	ErrSegmentReplaced = errors.New("segment was replaced")
 
 	// ErrCommitLogDeleted is returned when attempting to read from a commit
@@ -414,7 +414,7 @@ func (s *segment) ReadAt(p []byte, off int64) (n int, err error) {
 	s.RLock()
 	defer s.RUnlock()
 	if s.closed {
-		if s.replaced {
+		if s.replaced || s.deleted {
 			return 0, ErrSegmentReplaced
 		}
 		return 0, ErrSegmentClosed
